@@ -52,3 +52,50 @@ Definition plain_select (q : query) : Prop :=
   is_agg q = false /\ is_update q = false.
 
 End Spec.
+
+(* ---------- UPDATE ---------- *)
+Section UpdateSpec.
+Variable expr : Type.
+Variable eval : env -> expr -> res val.
+Notation query := (query expr).
+
+(* the b-side and the "has exactly one partner" flag of an UPDATE record *)
+Definition update_partner (q : query) (jm : option jmap) (nr : nat) (a : rec) : res (binfo * bool) :=
+  match q_join q, jm with
+  | Some js, Some m =>
+      do k <- lhs_key (j_lhs js) nr a;
+      do ms <- get_rhs (j_kind js) m k;
+      match ms with
+      | [] => Ok (BNull, false)
+      | [b] => Ok (b, true)
+      | _ => Err (XRuntime 4)
+      end
+  | _, _ => Ok (BNoJoin, true)
+  end.
+
+(* the record emitted for input record a, and the new value of NU *)
+Definition update_row (q : query) (asg : list (nat * expr)) (nr : nat) (a : rec) (b : binfo) (matched : bool) (nu : nat)
+  : res (row * nat) :=
+  do ok <- (if matched then where_ok eval q (env_of nr a b nu) else Ok false);
+  if ok then do r <- apply_assigns eval (env_of nr a b (S nu)) (map VA a) asg; Ok (r, S nu)
+  else Ok (map VA a, nu).
+
+Fixpoint update_all (q : query) (asg : list (nat * expr)) (jm : option jmap) (nr nu : nat) (A : list rec) : res (list row) :=
+  match A with
+  | [] => Ok []
+  | a :: t =>
+      do p <- update_partner q jm (S nr) a;
+      do rn <- update_row q asg (S nr) a (fst p) (snd p) nu;
+      do rs <- update_all q asg jm (S nr) (snd rn) t;
+      Ok (fst rn :: rs)
+  end.
+
+(* the value field i of the emitted record has after the assignments: the last assignment to i wins,
+   every right-hand side evaluated in the same environment (the original record) *)
+Fixpoint last_assign (en : env) (asg : list (nat * expr)) (i : nat) (cur : res val) : res val :=
+  match asg with
+  | [] => cur
+  | (j, e) :: t => if Nat.eqb i j then last_assign en t i (eval en e) else last_assign en t i cur
+  end.
+
+End UpdateSpec.
